@@ -57,6 +57,7 @@ def run_shard(shard, tier, seed, wd, res):
         # the same (msg, tag) under every expander back to back: the result depends on the suite as well
         for x2 in XS:
             s.op(gp + ".hash", V.s(x2), V.b(b"one message"), V.b(b"one tag"))
+        for x2 in XS:
             s.op(gp + ".encode", V.s(x2), V.b(b"one message"), V.b(b"one tag"))
     for msg, dst in cases:
         for op in ("hash", "encode"):
